@@ -86,7 +86,7 @@ def h_cluster(E, shapes, use_attr):
     E.check(p0 != p1, "partition-depends-on-list-order", dict(order=perm))
     # batched versus one-shot
     for bs in list(range(1, m + 1)) + [None]:
-        data, templates = BatchCluster().fit(mk(perm), [], rule_key="g", attribute_key=akey or "att", batch_size=bs)
+        data, templates = BatchCluster().fit(mk(perm), [], rule_key="g", attribute_key=akey, batch_size=bs)
         pb = judge(data, "batched-classes-are-isomorphism-classes", dict(batch_size=bs, order=perm))
         E.check(pb != p0, "batched-partition-differs-from-one-shot", dict(batch_size=bs))
         tcls = [t.get("class") for t in templates]
@@ -97,7 +97,7 @@ def h_cluster(E, shapes, use_attr):
     seen = []
     for i in perm:
         entry = dict(g=graphs[i], att=att(graphs[i]), idx=i)
-        entry, templates = bc.lib_check(entry, templates, rule_key="g", attribute_key="att")
+        entry, templates = bc.lib_check(entry, templates, rule_key="g", attribute_key=akey)
         c = entry.get("class")
         bad = []
         prev_classes = {pc for _, pc in seen}
